@@ -21,7 +21,7 @@ func init() { register(&Check{ID: "C09", Run: runC09}) }
 
 var c09Chars = []string{"a", "é", " ", "$", `\`, "0", "n", "p", "{", "}", "\n\t\t", "#", "/"} // "#" and "/": comment markers inside a literal are text
 
-var c09Types = []string{"", "ascii", "braille", "custom"}
+var c09Types = []string{"", "ascii", "braille", "custom", "string"} // "string": the default directive written as an explicit type (no terminator is added to explicit types other than ascii and braille)
 
 const c09Origins = 17
 
@@ -371,5 +371,5 @@ func runC09(tier string) int {
 		"contents whose terminator would straddle two parts are not generated (the property can be read both ways there)",
 		"for format() origins the source lines are the lines of the exported FormatText's result (its content is C07's business)")
 	return r.Finish(r.Get("evaluations"), r.Get("nontrivial"),
-		"every content of total length <= L over {a, é, space, $, \\, 0, n, p, {, }, #, /, newline-inside-literal} split into 1-3 literal parts x 3 layouts (same line / one part per line / several comment lines between the parts) x 4 string types x 17 origins (after a plain text spelled like the type plus the content, argument of an AutoVar command standing first / in the middle / last in &&- and ||-chains of if, while and do...while conditions and as a switch operand, text statement, inline argument, format() of each, poryswitch case selected directly / through '_' / brace form, argument inside an if, after / before a typed inline text in the same command, after typed texts elsewhere); plus every identifier-like literal of the compiler's own source as a whole text and as a word of a text (statement, inline, formatted; every type); plus texts of K parts for every K up to the bound in the coverage (statement and inline, every string type); a constant named like the content is defined first whenever the content is spelled like an identifier; non-trivial = >= 2 parts and a string type")
+		"every content of total length <= L over {a, é, space, $, \\, 0, n, p, {, }, #, /, newline-inside-literal} split into 1-3 literal parts x 3 layouts (same line / one part per line / several comment lines between the parts) x 5 string types (none, ascii, braille, a custom one, and the default directive's own name) x 17 origins (after a plain text spelled like the type plus the content, argument of an AutoVar command standing first / in the middle / last in &&- and ||-chains of if, while and do...while conditions and as a switch operand, text statement, inline argument, format() of each, poryswitch case selected directly / through '_' / brace form, argument inside an if, after / before a typed inline text in the same command, after typed texts elsewhere); plus every identifier-like literal of the compiler's own source as a whole text and as a word of a text (statement, inline, formatted; every type); plus texts of K parts for every K up to the bound in the coverage (statement and inline, every string type); a constant named like the content is defined first whenever the content is spelled like an identifier; non-trivial = >= 2 parts and a string type")
 }
